@@ -229,5 +229,10 @@ def val(x):
     return x
 
 
+def atend(s, d):
+    """element at distance d from the end of s"""
+    return s[len(s) - 1 - d]
+
+
 def parse_expr(src):
     return ast.parse(src.strip(), mode='eval').body
